@@ -1145,6 +1145,143 @@ func TestGocvReplay(t *testing.T) {
 		"(*kmip.PrivateKey).RSA", "(*kmip.PrivateKey).ECDSA", "(*kmip.PrivateKey).CryptoPrivateKey", "(*kmip.PrivateKey).Pkcs8Pem"} {
 		replayers[fn] = replayers["scenario:C14"]
 	}
+	// hand-written codecs (C01 mirror lemmas): round trips of values with every optional part populated,
+	// through the real binary encoder and decoder
+	mirrorHead := `package kmip_test
+
+import (
+	"bytes"
+	"testing"
+	"time"
+
+	"github.com/ovh/kmip-go"
+	"github.com/ovh/kmip-go/payloads"
+	"github.com/ovh/kmip-go/ttlv"
+)
+
+var _ = time.Now
+var _ = payloads.GetRequestPayload{}
+
+func gocvRoundTrip[T any](t *testing.T, what string, in *T) {
+	t.Helper()
+	defer func() {
+		if p := recover(); p != nil {
+			t.Fatalf("GOCV-REPRODUCED: {{.Obligation}}: %s: panic: %v", what, p)
+		}
+	}()
+	raw := ttlv.MarshalTTLV(in)
+	out := new(T)
+	if err := ttlv.UnmarshalTTLV(raw, out); err != nil {
+		t.Fatalf("GOCV-REPRODUCED: {{.Obligation}}: %s: the library cannot decode what it encoded: %v", what, err)
+	}
+	// "equal in content" is checked through the encoding (nil and empty slices are the same content): the
+	// decoded value must re-encode to the very bytes it was decoded from, so no element was dropped or altered
+	if raw2 := ttlv.MarshalTTLV(out); !bytes.Equal(raw, raw2) {
+		t.Fatalf("GOCV-REPRODUCED: {{.Obligation}}: %s: re-encoding the decoded value gives %d bytes instead of %d", what, len(raw2), len(raw))
+	}
+}
+
+func gocvExt() *kmip.MessageExtension {
+	return &kmip.MessageExtension{VendorIdentification: "acme", CriticalityIndicator: false, VendorExtension: ttlv.Struct{}}
+}
+
+func gocvKey() *kmip.SymmetricKey {
+	raw := []byte{1, 2, 3, 4, 5, 6, 7, 8, 9, 10, 11, 12, 13, 14, 15, 16}
+	return &kmip.SymmetricKey{KeyBlock: kmip.KeyBlock{KeyFormatType: kmip.KeyFormatTypeRaw, KeyValue: &kmip.KeyValue{Plain: &kmip.PlainKeyValue{KeyMaterial: kmip.KeyMaterial{Bytes: &raw}}},
+		CryptographicAlgorithm: kmip.CryptographicAlgorithmAES, CryptographicLength: 128}}
+}
+
+func gocvAttrs() []kmip.Attribute {
+	return []kmip.Attribute{ {AttributeName: kmip.AttributeNameObjectType, AttributeValue: kmip.ObjectTypeSymmetricKey},
+		{AttributeName: kmip.AttributeNameCryptographicLength, AttributeValue: int32(128)}}
+}
+`
+	replayers["scenario:C01-response-item"] = &Replayer{PkgDir: ".", Oracle: "response messages whose batch item carries every optional part (operation, ID, reason, message, asynchronous correlation value, payload, message extension), in every combination, round-trip through MarshalTTLV/UnmarshalTTLV to an equal value and to identical bytes",
+		Template: mirrorHead + `
+func TestGocvReplay(t *testing.T) {
+	for mask := 0; mask < 64; mask++ {
+		bi := kmip.ResponseBatchItem{ResultStatus: kmip.ResultStatusSuccess}
+		if mask&1 != 0 {
+			bi.Operation = kmip.OperationActivate
+			bi.ResponsePayload = &payloads.ActivateResponsePayload{UniqueIdentifier: "id-1"}
+		}
+		if mask&2 != 0 {
+			bi.UniqueBatchItemID = []byte{9, 9}
+		}
+		if mask&4 != 0 {
+			bi.ResultStatus = kmip.ResultStatusOperationFailed
+			bi.ResultReason = kmip.ResultReasonGeneralFailure
+			bi.ResponsePayload = nil
+		}
+		if mask&8 != 0 {
+			bi.ResultMessage = "text"
+		}
+		if mask&16 != 0 {
+			bi.AsynchronousCorrelationValue = []byte{7}
+		}
+		if mask&32 != 0 {
+			bi.MessageExtension = gocvExt()
+		}
+		msg := kmip.ResponseMessage{Header: kmip.ResponseHeader{ProtocolVersion: kmip.V1_4, BatchCount: 1}, BatchItem: []kmip.ResponseBatchItem{bi}}
+		gocvRoundTrip(t, "response batch item", &msg)
+	}
+}
+`}
+	replayers["scenario:C01-request-item"] = &Replayer{PkgDir: ".", Oracle: "request messages whose batch item carries every optional part round-trip to an equal value and identical bytes",
+		Template: mirrorHead + `
+func TestGocvReplay(t *testing.T) {
+	for mask := 0; mask < 4; mask++ {
+		bi := kmip.RequestBatchItem{Operation: kmip.OperationActivate, RequestPayload: &payloads.ActivateRequestPayload{UniqueIdentifier: "id-1"}}
+		if mask&1 != 0 {
+			bi.UniqueBatchItemID = []byte{9, 9}
+		}
+		if mask&2 != 0 {
+			bi.MessageExtension = gocvExt()
+		}
+		msg := kmip.RequestMessage{Header: kmip.RequestHeader{ProtocolVersion: kmip.V1_4, BatchCount: 1}, BatchItem: []kmip.RequestBatchItem{bi}}
+		gocvRoundTrip(t, "request batch item", &msg)
+	}
+}
+`}
+	replayers["scenario:C01-import"] = &Replayer{PkgDir: ".", Oracle: "Import request payloads with every combination of ReplaceExisting and KeyWrapType round-trip to an equal value and identical bytes",
+		Template: mirrorHead + `
+func TestGocvReplay(t *testing.T) {
+	for mask := 0; mask < 4; mask++ {
+		pl := payloads.ImportRequestPayload{UniqueIdentifier: "id-1", Attribute: gocvAttrs(), Object: gocvKey()}
+		if mask&1 != 0 {
+			pl.ReplaceExisting = true
+		}
+		if mask&2 != 0 {
+			pl.KeyWrapType = kmip.NotWrapped
+		}
+		msg := kmip.RequestMessage{Header: kmip.RequestHeader{ProtocolVersion: kmip.V1_4, BatchCount: 1},
+			BatchItem: []kmip.RequestBatchItem{ {Operation: kmip.OperationImport, RequestPayload: &pl}}}
+		gocvRoundTrip(t, "import request", &msg)
+	}
+}
+`}
+	replayers["scenario:C01-payloads"] = &Replayer{PkgDir: ".", Oracle: "Get / Export responses and Register requests with an object and attributes round-trip to an equal value and identical bytes",
+		Template: mirrorHead + `
+func TestGocvReplay(t *testing.T) {
+	resp := func(op kmip.Operation, pl kmip.OperationPayload) *kmip.ResponseMessage {
+		return &kmip.ResponseMessage{Header: kmip.ResponseHeader{ProtocolVersion: kmip.V1_4, BatchCount: 1},
+			BatchItem: []kmip.ResponseBatchItem{ {Operation: op, ResultStatus: kmip.ResultStatusSuccess, ResponsePayload: pl}}}
+	}
+	gocvRoundTrip(t, "get response", resp(kmip.OperationGet, &payloads.GetResponsePayload{ObjectType: kmip.ObjectTypeSymmetricKey, UniqueIdentifier: "id", Object: gocvKey()}))
+	gocvRoundTrip(t, "export response", resp(kmip.OperationExport, &payloads.ExportResponsePayload{ObjectType: kmip.ObjectTypeSymmetricKey, UniqueIdentifier: "id", Attribute: gocvAttrs(), Object: gocvKey()}))
+	gocvRoundTrip(t, "export response without attributes", resp(kmip.OperationExport, &payloads.ExportResponsePayload{ObjectType: kmip.ObjectTypeSymmetricKey, UniqueIdentifier: "id", Object: gocvKey()}))
+	req := &kmip.RequestMessage{Header: kmip.RequestHeader{ProtocolVersion: kmip.V1_4, BatchCount: 1},
+		BatchItem: []kmip.RequestBatchItem{ {Operation: kmip.OperationRegister, RequestPayload: &payloads.RegisterRequestPayload{ObjectType: kmip.ObjectTypeSymmetricKey,
+			TemplateAttribute: kmip.TemplateAttribute{Attribute: gocvAttrs()}, Object: gocvKey()}}}}
+	gocvRoundTrip(t, "register request", req)
+}
+`}
+	replayers["kmip.lemmaMirrorResponseBatchItem"] = replayers["scenario:C01-response-item"]
+	replayers["kmip.lemmaMirrorRequestBatchItem"] = replayers["scenario:C01-request-item"]
+	replayers["payloads.lemmaMirrorImportRequest"] = replayers["scenario:C01-import"]
+	for _, fn := range []string{"payloads.lemmaMirrorGetResponse", "payloads.lemmaMirrorExportResponse", "payloads.lemmaMirrorRegisterRequest"} {
+		replayers[fn] = replayers["scenario:C01-payloads"]
+	}
 	// connection faults, sequential part (C11)
 	replayers["scenario:C11"] = &Replayer{PkgDir: "kmipclient", Oracle: "a client whose (re)connection failed can still be closed without panic and its calls fail; a call over connections that all end with EOF dials at most 4 times and returns an error",
 		Template: `package kmipclient
